@@ -503,7 +503,10 @@ func init() {
 				if lost {
 					continue
 				}
-				probes := []time.Time{a.at(c.T)}
+				// the probe of the behaviour, and the instants a program gets by accident: the zero time.Time (year 1), the same
+				// instant written as a Unix time, the epoch, the largest and smallest times - they are instants like any other
+				probes := []time.Time{a.at(c.T), {}, time.Unix(-62135596800, 0), time.Date(1, 1, 1, 0, 0, 0, 1, time.UTC), time.Unix(0, 0),
+					time.Unix(1<<62, 0), time.Unix(-(1 << 61), 0)}
 				tick := time.Second / winQ
 				for _, b := range []*time.Time{enbf, eexp} {
 					if b == nil {
